@@ -5,6 +5,7 @@ package ice
 // routing-table reference (engine VT). Concurrent part: engine CS scenarios (c12cs_test.go).
 
 import (
+	"errors"
 	"encoding/json"
 	"fmt"
 	"io"
@@ -162,6 +163,7 @@ type muxModel struct {
 	handles  map[string][]muxHandle // "ufrag/family" -> open handles (at most two)
 	seq      int
 	depth    int
+	short    bool // the datagram of the current event is read with a buffer that is too small
 	problems []vtProblem
 	removed  map[int]bool // generations removed by ufrag earlier in the history
 	wroteTo  map[int]map[string]bool
@@ -229,6 +231,8 @@ func (mm *muxModel) Enabled() []string {
 			evs = append(evs, "in:"+kind+":"+a)
 		}
 	}
+	// the same, but the application reads it with a buffer that is too small (the datagram is lost to it, nothing else is)
+	evs = append(evs, "inshort:u1:r:X", "inshort:data:X", "inshort:u2:r:Y")
 	evs = append(evs, "closemux")
 
 	return evs
@@ -302,7 +306,8 @@ func (mm *muxModel) Apply(ev string) {
 			mm.lastW[h.gen] = a
 		}
 		// reference: a removed or closed connection owns nothing, whatever it writes
-	case "in":
+	case "in", "inshort":
+		mm.short = f[0] == "inshort"
 		p := strings.SplitN(f[1], ":", 3)
 		// kind may itself contain ':' ("u1:r"): the source is the last field
 		src := f[1][strings.LastIndex(f[1], ":")+1:]
@@ -370,6 +375,7 @@ func (mm *muxModel) Apply(ev string) {
 
 // drain polls every open handle (a read with an expired deadline returns what is queued).
 func (mm *muxModel) drain() {
+	defer func() { mm.short = false }()
 	polled := map[int]bool{}
 	for _, k := range muxKeys {
 		for _, h := range mm.handles[k] {
@@ -377,6 +383,15 @@ func (mm *muxModel) drain() {
 				continue
 			}
 			polled[h.gen] = true
+			if mm.short && len(mm.ref.q[h.gen]) > 0 {
+				// one read with a 4-byte buffer: io.ErrShortBuffer, the datagram is gone, the queue behind it is intact
+				_ = h.conn.SetReadDeadline(time.Now().Add(-time.Second))
+				if _, _, err := h.conn.ReadFrom(make([]byte, 4)); !errors.Is(err, io.ErrShortBuffer) {
+					mm.problem("", "connection %s: a read with a 4-byte buffer of a queued datagram returned %v, want io.ErrShortBuffer", k, err)
+				} else {
+					mm.ref.q[h.gen] = mm.ref.q[h.gen][1:]
+				}
+			}
 			for {
 				_ = h.conn.SetReadDeadline(time.Now().Add(-time.Second))
 				buf := make([]byte, 2000)
@@ -462,11 +477,22 @@ func (mm *muxModel) Key() (string, []int) {
 	var ik []string
 	for i, m := range mm.ms {
 		m.mu.Lock()
-		for u := range m.connsIPv4 {
-			ik = append(ik, fmt.Sprintf("%d.c4:%s", i, u))
+		// with each registered connection the shape of its receive queue (after the drain: empty, head and tail nil)
+		qshape := func(c *udpMuxedConn) string {
+			c.mu.Lock()
+			defer c.mu.Unlock()
+			n := 0
+			for p := c.bufTail; p != nil && n < 8; p = p.next {
+				n++
+			}
+
+			return fmt.Sprintf("q%d/%v", n, c.bufHead != nil)
 		}
-		for u := range m.connsIPv6 {
-			ik = append(ik, fmt.Sprintf("%d.c6:%s", i, u))
+		for u, c := range m.connsIPv4 {
+			ik = append(ik, fmt.Sprintf("%d.c4:%s:%s", i, u, qshape(c)))
+		}
+		for u, c := range m.connsIPv6 {
+			ik = append(ik, fmt.Sprintf("%d.c6:%s:%s", i, u, qshape(c)))
 		}
 		m.mu.Unlock()
 		m.addressMapMu.Lock()
